@@ -54,7 +54,7 @@ claimed.update({
 claimed.update({
  "C08": ("exploration", "validity predicates over all reported positions: damaged generated texts, single-fault culprit table, runtime-failure table on both backends",
          "Random damage of generated programs (as entry and as imported module) for syntax-error and diagnostic spans; exhaustive tables for 'points at the culprit' (20 rules x 8 contexts x entry/imported) and for runtime positions (7 failures x depth 0-3 x module x unicode prefix x backend).",
-         "The position just behind the last rune is accepted for failures at end of input. Whether a runtime failure is catchable is not judged here. Open finding C08-002 identified by signature."),
+         "The position just behind the last rune is accepted for failures at end of input. Whether a runtime failure is catchable is not judged here."),
  "C15": ("exploration", "exhaustive small-scope enumeration of module graphs with a linking model as oracle",
          "All import-kind assignments over 14 graph shapes with <= 2 (quick) / 3 (thorough) library modules, with same-named private items in every module; diagnostics iff faulty/cyclic, behaviour of fault-free graphs against the reference semantics over 3 repetitions on both backends.",
          "Library modules carry an empty main like the repository's own multi-module scripts; whether a library needs a main is not judged."),
